@@ -221,6 +221,13 @@ Section Assoc.
     intros ND H. apply in_keys_aget in H. destruct H as [v H]. rewrite aget_adel in H by exact ND.
     destruct (eqb_spec k k); congruence.
   Qed.
+  Lemma in_keys_adel d k k' : NoDup (map fst d) -> (In k' (map fst (adel d k)) <-> k' <> k /\ In k' (map fst d)).
+  Proof.
+    intro ND. split.
+    - intro H. split; [intros ->; exact (notin_keys_adel d k ND H)|exact (keys_adel_incl _ _ _ H)].
+    - intros [N H]. apply in_keys_aget in H. destruct H as [v H]. apply aget_In in H.
+      assert (H' : In (k', v) (adel d k)) by (apply In_adel; auto). apply (in_map fst) in H'. exact H'.
+  Qed.
   Lemma NoDup_keys_inj (d : list (K * V)) k v v' : NoDup (map fst d) -> In (k, v) d -> In (k, v') d -> v = v'.
   Proof. intros ND H H'. apply (In_aget _ _ _ ND) in H. apply (In_aget _ _ _ ND) in H'. congruence. Qed.
   Lemma aget_notin_keys (d : list (K * V)) k : ~ In k (map fst d) -> aget d k = None.
